@@ -792,6 +792,31 @@ pub fn zipped_directed() -> Vec<Trace> {
                 v.push(t);
             }
         }
+        // the disk fills up during the first-use extraction: the k-th file is created but its data cannot be written (a torn
+        // extraction: complete files, one empty file, missing files); later there is space again and the application retries
+        for k in [0u64, 2, 5, 9] {
+            for back_first in [false, true] {
+                let mut t = Trace::new("C14", "C14");
+                t.origin = format!("zipped deployment: disk full after {} writes while extracting {} back_first={}", k, zip, back_first);
+                t.world.zipped = true;
+                let mut s = vec![ensure_step(MOUNT_A, &en, "All", true), probe_step("base", 2), clock(1000), Step::Env(EnvEvent::DiskFull { after_writes: k }), clock(1000)];
+                s.push(ensure_step(MOUNT_A, &other, "All", false));
+                s.push(probe_step("faulted", 2));
+                if back_first {
+                    s.push(ensure_step(MOUNT_A, &en, "All", false));
+                    s.push(probe_step("back", 2));
+                    s.push(expect_equal_step("base", "back"));
+                }
+                s.push(clock(1500));
+                s.push(Step::Env(EnvEvent::DiskFree));
+                s.push(Step::Check { kind: "settle".into(), args: json!({}) });
+                s.push(ensure_step(MOUNT_A, &other, "All", true));
+                s.push(probe_step("after", 2));
+                s.push(expect_ref_step("after", MOUNT_A));
+                t.sessions = vec![s];
+                v.push(t);
+            }
+        }
     }
     v
 }
